@@ -1220,6 +1220,25 @@ def _expr_diff(bn, cn, out, bnames, cnames):
       return
 
 
+def _twin(bn, cn, target):
+  """The node of cn at the structural position that `target` has in bn (None when the shapes diverge above it)."""
+  if bn is target:
+    return cn
+  if type(bn) is not type(cn):
+    return None
+  for (f1, v1), (f2, v2) in zip(ast.iter_fields(bn), ast.iter_fields(cn)):
+    if isinstance(v1, ast.AST) and isinstance(v2, ast.AST):
+      if any(x is target for x in ast.walk(v1)):
+        return _twin(v1, v2, target)
+    elif isinstance(v1, list) and isinstance(v2, list):
+      for k, x in enumerate(v1):
+        if isinstance(x, ast.AST) and any(y is target for y in ast.walk(x)):
+          if len(v1) != len(v2) or not isinstance(v2[k], ast.AST):
+            return None
+          return _twin(x, v2[k], target)
+  return None
+
+
 def _outline_expr(fb, fq, bst, region, call, bind, own, cblk, j0, bnames, cnames):
   """The reference call sits inside an expression of bst; the current statement has the helper's (single return)
   expression at that place."""
@@ -1229,7 +1248,13 @@ def _outline_expr(fb, fq, bst, region, call, bind, own, cblk, j0, bnames, cnames
   diffs = []
   _expr_diff(bst, cst, diffs, bnames, cnames)
   if len(diffs) != 1:
-    return _fail('expr2')
+    # several differences, all inside the reference call: the node that stands where the call stood is the replacement
+    inside = set(id(x) for x in ast.walk(call))
+    twin = _twin(bst, cst, call)
+    if diffs and twin is not None and all(id(b_) in inside for b_, _c in diffs):
+      diffs = [(call, twin)]
+    else:
+      return _fail('expr2')
   bsub, csub = diffs[0]
   value = None
   if bsub is call:
@@ -1389,6 +1414,185 @@ def fuse_generators(tree, rel, stats):
       stats['generators_fused'] = stats.get('generators_fused', 0) + 1
 
 
+# ---------------------------------------------------------------- R5
+def _const_expr(e):
+  """Literal constants and arithmetic / tuples / simple string formatting over them."""
+  if isinstance(e, ast.Constant):
+    return not isinstance(e.value, (bytes,)) or True
+  if isinstance(e, ast.UnaryOp) and isinstance(e.op, (ast.USub, ast.UAdd, ast.Invert)):
+    return _const_expr(e.operand)
+  if isinstance(e, ast.BinOp) and isinstance(e.op, (ast.Add, ast.Sub, ast.Mult, ast.Pow, ast.LShift, ast.RShift, ast.BitOr, ast.BitAnd, ast.FloorDiv)):
+    return _const_expr(e.left) and _const_expr(e.right)
+  if isinstance(e, ast.Tuple):
+    return all(_const_expr(x) for x in e.elts)
+  return False
+
+
+def _mark(n):
+  n._from_const = True
+  return n
+
+
+def _fold_marked(tree):
+  """Arithmetic of two literal numbers where one of them was put there by constant inlining is evaluated (`spec[0 + 1:]` -> `spec[1:]`)."""
+  import operator
+  OPS = {ast.Add: operator.add, ast.Sub: operator.sub, ast.Mult: operator.mul, ast.FloorDiv: operator.floordiv, ast.LShift: operator.lshift,
+         ast.RShift: operator.rshift, ast.BitOr: operator.or_, ast.BitAnd: operator.and_}
+
+  class F(ast.NodeTransformer):
+    def visit_BinOp(self, node):
+      self.generic_visit(node)
+      l, r = node.left, node.right
+      if (isinstance(l, ast.Constant) and isinstance(r, ast.Constant) and type(node.op) in OPS and (getattr(l, '_from_const', False) or getattr(r, '_from_const', False))
+          and isinstance(l.value, int) and isinstance(r.value, int) and not isinstance(l.value, bool) and not isinstance(r.value, bool)):
+        try:
+          v = OPS[type(node.op)](l.value, r.value)
+        except Exception:
+          return node
+        if abs(v) < 2 ** 40:
+          return _mark(ast.copy_location(ast.Constant(value=v), node))
+      return node
+  F().visit(tree)
+
+
+def inline_new_constants(trees, stats):
+  """A module-level or class-level name that the reference tree does not have, bound exactly once to a literal constant (numbers, strings,
+  tuples and arithmetic of those), is replaced by its value wherever it is read ("named constant for a magic number"), across modules."""
+  b = load_baseline()
+  base = b.get('constants')
+  if base is None:
+    return
+  modname = {}
+  for rel in trees:
+    nm = rel[:-3].replace('/', '.')
+    if nm.endswith('.__init__'):
+      nm = nm[:-9]
+    modname[nm] = rel
+  consts = {}      # rel -> {qualified name: value}
+  for rel, tree in trees.items():
+    known = set(base.get(rel, []))
+    found = {}
+
+    def walk(body, prefix, cls):
+      for st in body:
+        if isinstance(st, ast.ClassDef):
+          walk(st.body, prefix + st.name + '.', st)
+        elif isinstance(st, ast.Assign) and len(st.targets) == 1 and isinstance(st.targets[0], ast.Name) and _const_expr(st.value):
+          q = prefix + st.targets[0].id
+          if q not in known and not (st.targets[0].id.startswith('__') and st.targets[0].id.endswith('__')):
+            found.setdefault(q, []).append((st, body, cls))
+    walk(tree.body, '', None)
+    for q, defs in found.items():
+      if len(defs) != 1:
+        continue
+      name = q.split('.')[-1]
+      st, body, cls = defs[0]
+      # bound nowhere else in the module (any scope), never declared global, never an instance attribute
+      other = [n for n in ast.walk(tree) if ((isinstance(n, ast.Name) and isinstance(n.ctx, (ast.Store, ast.Del)) and n.id == name) or
+                                             (isinstance(n, ast.arg) and n.arg == name) or
+                                             (isinstance(n, (ast.FunctionDef, ast.AsyncFunctionDef, ast.ClassDef)) and n.name == name) or
+                                             (isinstance(n, ast.Attribute) and isinstance(n.ctx, (ast.Store, ast.Del)) and n.attr == name) or
+                                             (isinstance(n, (ast.Global, ast.Nonlocal)) and name in n.names) or
+                                             (isinstance(n, ast.ExceptHandler) and n.name == name) or
+                                             (isinstance(n, ast.alias) and (n.asname or n.name) == name))
+               and n is not st.targets[0]]
+      if other:
+        continue
+      consts.setdefault(rel, {})[q] = (st, body, cls)
+  if not consts:
+    return
+  n_sub = [0]
+  for rel, table in consts.items():
+    tree = trees[rel]
+    for q, (st, body, cls) in table.items():
+      name = q.split('.')[-1]
+      val = st.value
+      if cls is None:
+        for p in ast.walk(tree):
+          for fld, v in ast.iter_fields(p):
+            if isinstance(v, ast.Name) and v.id == name and isinstance(v.ctx, ast.Load):
+              setattr(p, fld, _mark(ast.copy_location(copy.deepcopy(val), v)))
+              n_sub[0] += 1
+            elif isinstance(v, list):
+              for i, x in enumerate(v):
+                if isinstance(x, ast.Name) and x.id == name and isinstance(x.ctx, ast.Load):
+                  v[i] = _mark(ast.copy_location(copy.deepcopy(val), x))
+                  n_sub[0] += 1
+        # other modules: from <this module> import name  /  <alias>.name
+        for rel2, tree2 in trees.items():
+          if rel2 == rel:
+            continue
+          for imp in [x for x in tree2.body if isinstance(x, ast.ImportFrom)]:
+            src = imp.module or ''
+            if imp.level:
+              basepkg = rel2[:-3].replace('/', '.').split('.')
+              if not rel2.endswith('__init__.py'):
+                basepkg = basepkg[:-1]
+              if imp.level > 1:
+                basepkg = basepkg[:-(imp.level - 1)]
+              src = '.'.join(basepkg + ([imp.module] if imp.module else []))
+            if modname.get(src) != rel:
+              continue
+            for a in list(imp.names):
+              if a.name == name:
+                loc = a.asname or a.name
+                rebound = any(isinstance(n, ast.Name) and isinstance(n.ctx, (ast.Store, ast.Del)) and n.id == loc for n in ast.walk(tree2)) or \
+                  any(isinstance(n, ast.arg) and n.arg == loc for n in ast.walk(tree2))
+                if rebound:
+                  continue
+                for p in ast.walk(tree2):
+                  for fld, v in ast.iter_fields(p):
+                    if isinstance(v, ast.Name) and v.id == loc and isinstance(v.ctx, ast.Load):
+                      setattr(p, fld, _mark(ast.copy_location(copy.deepcopy(val), v)))
+                      n_sub[0] += 1
+                    elif isinstance(v, list):
+                      for i, x in enumerate(v):
+                        if isinstance(x, ast.Name) and x.id == loc and isinstance(x.ctx, ast.Load):
+                          v[i] = _mark(ast.copy_location(copy.deepcopy(val), x))
+                          n_sub[0] += 1
+                imp.names.remove(a)
+            if not imp.names:
+              tree2.body.remove(imp)
+      else:
+        # class constant: self.NAME / cls.NAME / <Class>.NAME anywhere in the package, bare NAME in the class body
+        owners = ('self', 'cls', cls.name)
+        for tree2 in trees.values():
+          for p in ast.walk(tree2):
+            for fld, v in ast.iter_fields(p):
+              vs = v if isinstance(v, list) else [v]
+              for i, x in enumerate(vs):
+                if isinstance(x, ast.Attribute) and x.attr == name and isinstance(x.ctx, ast.Load) and ((isinstance(x.value, ast.Name) and x.value.id in owners) or
+                                                                                                      (isinstance(x.value, ast.Attribute) and x.value.attr == cls.name)):
+                  new = _mark(ast.copy_location(copy.deepcopy(val), x))
+                  if isinstance(v, list):
+                    v[i] = new
+                  else:
+                    setattr(p, fld, new)
+                  n_sub[0] += 1
+        for s2 in cls.body:
+          if s2 is st or isinstance(s2, (ast.FunctionDef, ast.AsyncFunctionDef, ast.ClassDef)):
+            continue
+          for p in ast.walk(s2):
+            for fld, v in ast.iter_fields(p):
+              vs = v if isinstance(v, list) else [v]
+              for i, x in enumerate(vs):
+                if isinstance(x, ast.Name) and x.id == name and isinstance(x.ctx, ast.Load):
+                  new = _mark(ast.copy_location(copy.deepcopy(val), x))
+                  if isinstance(v, list):
+                    v[i] = new
+                  else:
+                    setattr(p, fld, new)
+                  n_sub[0] += 1
+      body.remove(st)
+      if not body:
+        body.append(ast.Pass())
+    ast.fix_missing_locations(tree)
+  for tree in trees.values():
+    _fold_marked(tree)
+    ast.fix_missing_locations(tree)
+  stats['constants_inlined'] = n_sub[0]
+
+
 # ---------------------------------------------------------------- drivers
 def _note_stable_attrs(trees):
   from . import normalize
@@ -1418,6 +1622,11 @@ def restore_package(trees, stats):
     _note_stable_attrs(trees)
   except Exception as e:
     stats['stable_error'] = repr(e)
+  try:
+    for _ in range(2):       # a constant defined from another new constant
+      inline_new_constants(trees, stats)
+  except Exception as e:
+    stats['constant_error'] = repr(e)
   for rel, tree in trees.items():
     try:
       restore_lock_decorators(tree, rel, stats)
